@@ -243,6 +243,10 @@ type c08PFDReq struct {
 	Req      sReq
 	Accepted bool
 	Table    map[string][]string
+	// Loose: the table holds structurally malformed descriptions. The statement does not say whether such a request is
+	// accepted, nor which of "refused" and "ignored" applies to a rule that meets one: crash-freedom, and an accepted rule's
+	// filter is the UE address alone or, verbatim, the first well-formed description of its direction
+	Loose bool
 }
 
 func c08PFDReqs() []c08PFDReq {
@@ -253,6 +257,8 @@ func c08PFDReqs() []c08PFDReq {
 	t3 := map[string][]string{"app1": {"permit in tcp from 10.2.0.0/16 443 to assigned", "permit out ip from 10.7.0.0/16 to assigned"}, "app2": {"permit in udp from 10.4.0.0/16 53 to assigned"}}
 	// descriptions with ports on the UE side ('assigned') only, the application side open: taken verbatim like any other
 	t4 := map[string][]string{"app1": {"permit in ip from any to assigned 5000-5010", "permit out udp from 10.1.0.0/16 to assigned 8080"}, "app2": {"permit out ip from any to assigned 443"}}
+	// structurally malformed descriptions (one token, white space only) in front of, and behind, well-formed ones
+	t5 := map[string][]string{"app1": {"permit", "permit out ip from 10.7.0.0/16 to assigned", "permit in udp from 10.4.0.0/16 53 to assigned"}, "app2": {"permit in tcp from 10.2.0.0/16 443 to assigned", "  "}}
 	mk := func(t map[string][]string) []sPFD {
 		var out []sPFD
 		for _, a := range []string{"app1", "app2"} {
@@ -263,20 +269,22 @@ func c08PFDReqs() []c08PFDReq {
 		return out
 	}
 	return []c08PFDReq{
-		{"T1", sReq{Kind: kPFD, PFDs: mk(t1)}, true, t1},
-		{"T2", sReq{Kind: kPFD, PFDs: mk(t2)}, true, t2},
-		{"T3", sReq{Kind: kPFD, PFDs: mk(t3)}, true, t3},
-		{"T4", sReq{Kind: kPFD, PFDs: mk(t4)}, true, t4},
-		{"bad-noflow-app1", sReq{Kind: kPFD, PFDs: []sPFD{{App: "app2", Flows: []string{"permit out ip from 10.9.0.0/16 to assigned"}}, {App: "app1", Bad: "noflow"}}}, false, nil},
-		{"bad-noflow-app3", sReq{Kind: kPFD, PFDs: []sPFD{{App: "app3", Flows: []string{"permit out ip from 10.9.0.0/16 to assigned"}, Bad: "noflow"}}}, false, nil},
-		{"bad-noctx-app2", sReq{Kind: kPFD, PFDs: []sPFD{{App: "app1", Flows: []string{"permit out ip from 10.8.0.0/16 to assigned"}}, {App: "app2", Bad: "noctx"}}}, false, nil},
-		{"empty", sReq{Kind: kPFD}, true, map[string][]string{}},
+		{"T1", sReq{Kind: kPFD, PFDs: mk(t1)}, true, t1, false},
+		{"T2", sReq{Kind: kPFD, PFDs: mk(t2)}, true, t2, false},
+		{"T3", sReq{Kind: kPFD, PFDs: mk(t3)}, true, t3, false},
+		{"T4", sReq{Kind: kPFD, PFDs: mk(t4)}, true, t4, false},
+		{"T5-malformed", sReq{Kind: kPFD, PFDs: mk(t5)}, true, t5, true},
+		{"bad-noflow-app1", sReq{Kind: kPFD, PFDs: []sPFD{{App: "app2", Flows: []string{"permit out ip from 10.9.0.0/16 to assigned"}}, {App: "app1", Bad: "noflow"}}}, false, nil, false},
+		{"bad-noflow-app3", sReq{Kind: kPFD, PFDs: []sPFD{{App: "app3", Flows: []string{"permit out ip from 10.9.0.0/16 to assigned"}, Bad: "noflow"}}}, false, nil, false},
+		{"bad-noctx-app2", sReq{Kind: kPFD, PFDs: []sPFD{{App: "app1", Flows: []string{"permit out ip from 10.8.0.0/16 to assigned"}}, {App: "app2", Bad: "noctx"}}}, false, nil, false},
+		{"empty", sReq{Kind: kPFD}, true, map[string][]string{}, false},
 	}
 }
 
 func (e *c08Env) checkPFDSeq(seq []c08PFDReq) {
 	res := e.res
 	var names []string
+	loose := false // the table in force came from a request with malformed descriptions
 	table := map[string][]string{}
 	// a fresh association for every sequence (the PFD table is per association)
 	e.sys.in.addConn(0)
@@ -291,7 +299,10 @@ func (e *c08Env) checkPFDSeq(seq []c08PFDReq) {
 			res.finding("c08:panic:"+ctx.pframe, ctx.pmsg, cs)
 			return
 		}
-		if ctx.accepted != r.Accepted {
+		if ctx.accepted {
+			loose = r.Loose
+		}
+		if ctx.accepted != r.Accepted && !r.Loose {
 			res.finding("c08:pfd-cause:"+r.Name, fmt.Sprintf("PFD Management request %s accepted=%v, expected %v", r.Name, ctx.accepted, r.Accepted), cs)
 		}
 		if ctx.accepted {
@@ -318,6 +329,10 @@ func (e *c08Env) checkPFDSeq(seq []c08PFDReq) {
 					}
 					continue
 				}
+				if !accepted && loose {
+					res.outcome("pfd-malformed-refused")
+					continue // refused: one of the two reactions the statement allows
+				}
 				if !accepted {
 					res.finding("c08:pfd-table-lost:"+app, fmt.Sprintf("after %v the application %s must be provisioned, but a PDR naming it was refused", names, app), cs)
 					continue
@@ -329,6 +344,9 @@ func (e *c08Env) checkPFDSeq(seq []c08PFDReq) {
 					kw = "out"
 				}
 				for _, fl := range flows {
+					if _, perr := refParseFlow(fl); perr != nil && loose {
+						continue // malformed: never the source of a filter
+					}
 					if f := strings.Fields(fl); len(f) > 1 && f[1] == kw && want == "" {
 						want = fl
 					}
@@ -349,6 +367,17 @@ func (e *c08Env) checkPFDSeq(seq []c08PFDReq) {
 					if rf.Dst.HasPort {
 						box.dLo, box.dHi = rf.Dst.Lo, rf.Dst.Hi
 					}
+				}
+				if loose {
+					// ignored (UE address only) or the first well-formed description of the direction, verbatim
+					res.outcome("pfd-malformed-accepted")
+					if v := c08Compare(entries, box); v != "" {
+						if v2 := c08Compare(entries, pdrBox(cs.rPDR(""), nil)); v2 != "" {
+							res.finding("c08:pfd-malformed-yields-filter", fmt.Sprintf("after %v, PDR naming %s: the table holds malformed descriptions and the filter is neither the UE address alone (%s) nor %q verbatim (%s)", names, app, v2, want, v), cs)
+						}
+					}
+					res.Distinct++
+					continue
 				}
 				if v := c08Compare(entries, box); v != "" {
 					res.finding("c08:pfd-filter-differs", fmt.Sprintf("after %v, %s PDR naming %s: %s (expected the %q description %q verbatim)", names, map[bool]string{true: "uplink", false: "downlink"}[uplink], app, v, kw, want), cs)
@@ -425,7 +454,7 @@ func TestVerifC08(t *testing.T) {
 	defer res.write(t)
 	res.Rule = "grammar expanded completely over action {permit,deny} x direction {in,out} x protocol {ip,tcp,udp,6,17,1,127,128,132,254,0,255} x remote {any, host, /32, /31, /24, /8, /1, /0} x port {absent, p, p-p, lo-hi, 65535, 0-65535, 1, 65530-65535, 0-5, 256, 512-520} x both " +
 		"endpoint orders (+ UE-side ports / no assigned side: crash-freedom only), each string inline in a Create PDR for both PDR directions and UE address present/absent; every token-level corruption (delete, duplicate, " +
-		"truncate after, replace by 12 junk tokens) of a stratified subset of descriptions (thorough: of all); every sequence of <= 3 PFD Management requests over {T1, T2, T3, T4 (UE-side ports), empty, three rejected forms} followed by PDRs naming " +
+		"truncate after, replace by 12 junk tokens) of a stratified subset of descriptions (thorough: of all); every sequence of <= 3 PFD Management requests over {T1, T2, T3, T4 (UE-side ports), T5 (malformed descriptions among well-formed ones), empty, three rejected forms} followed by PDRs naming " +
 		"app1/app2/app3 in both directions for two UE addresses in turn; every 'from <remote> [ports] to assigned' string of the grammar also through the UP4 plug-in (applications / terminations entries compared by C04's image check). distinct_nontrivial = strict grammar cases + PFD cases compared at the fake BESS"
 	res.Assumptions = []string{"reference denotation of DESIGN.md appendix A.1: the remote endpoint is the one that is not 'assigned'; oriented by the PDR's direction",
 		"ports wider than 100 are left to C17 (the Exact strategy refuses them after acceptance); protocol 0/255, port 0, UE-side ports: generated, crash-freedom only"}
